@@ -290,6 +290,28 @@ def rule_split(ctx):
                     same, wit = leaves.same_decision(lv, [((("cond", U, False),), NONE), ((("cond", U, True),), some)])
                     ctx.add("TPL", key, same, site, "head atom: refused if an argument is not a variable or a variable repeats; otherwise partial definition (head atom, body = the other side)", construct=wit)
                     continue
+                # fourth spelling: a loop that pushes the variable of each argument and leaves with None at the first argument that is
+                # not a variable.  The exit is a leaf whose facts are all about the current argument; what the loop collects for an argument
+                # is then "None under those facts, Some(the pushed variable) otherwise" - the same table as the first spelling
+                EACH_T = ("each", ("fieldof", ATOM, "terms"))
+                about_each = lambda t_: any(x_ == EACH_T for x_ in sym.subterms(t_))
+                exits_ = [(ts_, v_) for ts_, v_ in lv if v_ == NONE and ts_ and all(about_each(t_) for t_ in ts_)]
+                if first_spelling and len(exits_) == 1 and all(t_[0] == "not" for t_ in exits_[0][0]):
+                    to_at = lambda t_: leaves.replace(t_, {EACH_T: at(("fieldof", ATOM, "terms"))})
+                    var_alts = [frozenset(to_at(x_) for x_ in t_[1]) for t_ in exits_[0][0]]        # one conjunction per accepted kind of argument
+                    rest_ = [(tuple(t_ for t_ in ts_ if not about_each(t_)), v_) for ts_, v_ in lv if (ts_, v_) != exits_[0]]
+                    U = call("Itertools::all_unique", VARS)
+                    some = C("Option::Some", **{"0": C("Component::PartialDefinition", a=C("AtomicFormula::Atom", **{"0": ATOM}), f=F)})
+                    same, wit = leaves.same_decision(rest_, [((("cond", U, False),), NONE), ((("cond", U, True),), some)])
+                    elems_ = [e_ for _, alts_ in VARS[1] for _, e_ in alts_]
+                    if len(VARS[1]) == 1 and len(elems_) == 1:
+                        srcs_ = VARS[1][0][0]
+                        neg_all = frozenset(("not", tuple(sorted(a_, key=repr))) for a_ in var_alts)
+                        vars_seen.append(("coll", ((srcs_, tuple((a_, C("Option::Some", **{"0": elems_[0]})) for a_ in var_alts) + ((neg_all, NONE),)),)))
+                    else:
+                        same = False
+                    ctx.add("TPL", key, same, site, "head atom: refused if an argument is not a variable or a variable repeats; otherwise partial definition (head atom, body = the other side)", construct=wit)
+                    continue
                 vars_seen.append(VARS)
                 if first_spelling:
                     A, U = ("cond", call("Itertools::contains", VARS, NONE), True), call("Itertools::all_unique", VARS)
